@@ -97,6 +97,7 @@ package contracts
 //@ ghost decodedInto map[int]interface{}
 //@ ghost lastDecErr error
 //@ trusted func (*Decoder).Decode
+//@   opt havoc=args
 //@   modifies nDecoded, decodedInto, lastDecErr
 //@   ghostset lastDecErr := result
 //@   ensures result == nil ==> nDecoded == old(nDecoded) + 1 && decodedInto[old(nDecoded)] == v
@@ -108,6 +109,7 @@ package contracts
 //@ ghost decodedInto map[int]interface{}
 //@ ghost lastDecErr error
 //@ trusted func (*Decoder).Decode
+//@   opt havoc=args
 //@   modifies nDecoded, decodedInto, lastDecErr
 //@   ghostset lastDecErr := result
 //@   ensures result == nil ==> nDecoded == old(nDecoded) + 1 && decodedInto[old(nDecoded)] == v
